@@ -142,13 +142,13 @@ def params_for(tier):
         return {"metrics": metrics, "shapes": ["regular"], "types": ["csv", "text", "plot"],
                 "vx": [None, "threshold"], "vtypes": ["csv"], "variants": variants,
                 "ishapes": ["missing_slice", "regular"], "ix": [None, "location"], "iaggs": [None, "min", "range", "0.5"], "irs": irs,
-                "etypes": et, "evariants": ev, "eshapes": ["regular"]}
+                "etypes": et, "evariants": ev, "eshapes": ["regular", "one_input", "three_inputs"]}
     return {"metrics": metrics, "shapes": ["regular", "single_time", "single_location", "missing_slice"],
             "types": TYPES_ALL, "vx": [None, "threshold", "no", "location"], "vtypes": ["csv", "plot"],
             "variants": variants,
             "ishapes": ["missing_slice", "regular", "single_time", "single_location"], "ix": [None, "location", "time", "no"],
             "iaggs": [None] + AGGS, "irs": irs + [("-r", "50")],
-            "etypes": et + ["plot"], "evariants": ev, "eshapes": ["regular", "missing_slice", "single_location"]}
+            "etypes": et + ["plot"], "evariants": ev, "eshapes": ["regular", "missing_slice", "single_location", "one_input", "three_inputs"]}
 
 
 def run(tier, only=None):
